@@ -30,3 +30,13 @@ Proof.
   intros r Hin. apply target_history_independent.
   pose proof rules_all_ok as H. rewrite forallb_forall in H. apply H, Hin.
 Qed.
+
+(* the rule-set object (RewriteRuleSet.apply_to_model, Gen/RuleCfgs.ruleset_passes): whether the must-definition
+   check accepts what the source says now is evaluated by the harness on every run; when it does, this gives the
+   theorem (the harness then states and proves the unconditional instance) *)
+Theorem ruleset_passes_history_independent_if_ok : forallb rule_ok RuleCfgs.ruleset_passes = true ->
+  forall r, In r RuleCfgs.ruleset_passes ->
+  forall (h : list (oracle * nat * trace)) (s0 : state) orc fuel tr,
+    observable (run_match orc fuel (r_check r) (r_rewrite r) (run_history r h s0) tr) =
+    observable (run_match orc fuel (r_check r) (r_rewrite r) s0 tr).
+Proof. exact (all_rules_history_independent RuleCfgs.ruleset_passes). Qed.
